@@ -229,7 +229,7 @@ Section Reader.
         match ti_next (blocks_fuel r) r idx with
         | Ok None => Ok None
         | Ok (Some (RecIdx _ off, idx')) =>
-            if ti_off idx' <=? off then Err
+            if ti_off idx <=? off then Err
             else
               let* ot := tab_iter_at r off typ_any in
               match ot with
